@@ -120,6 +120,11 @@ func c04(c *q.Ctx) {
 		c.FieldStore(tr, "LedgerMeta.TrunkHeight", "proto.Clone(p0.meta)", tgt+".Height", "trunk height becomes the target's height")
 		c.ArgIs(tr, "Ledger.removeBlocks", 1, "ledger.(*Ledger).GetBranchInfo(p0,"+tgt+".Blockid,"+tgt+".Height)#0[]", 1, "every branch tip above the target is cut")
 		c.ArgIs(tr, "Ledger.removeBlocks", 2, tgt+".Blockid", 1, "down to the target")
+		// the tip recorded for a cut branch is found by walking down FROM THAT BRANCH'S tip (the stump of a side branch
+		// that forked below the target), not the target for every branch
+		tips := "ledger.(*Ledger).GetBranchInfo(p0,ledger.(*Ledger).fetchBlock(p0,p1)#0.Blockid,ledger.(*Ledger).fetchBlock(p0,p1)#0.Height)#0[]"
+		c.ArgIs(tr, "Ledger.updateBranchInfo", 1, "phi{ledger.(*Ledger).fetchBlock(p0,"+tips+")#0|ledger.(*Ledger).fetchBlock(p0,loop.PreHash)#0|*}.Blockid", 1, "the surviving block of the branch becomes its recorded tip")
+		c.ArgIs(tr, "Ledger.updateBranchInfo", 2, tips, 1, "the cut tip's record is retired")
 		c.SameValueArgs(tr, map[string]int{"Ledger.removeBlocks": 3, "Ledger.updateBranchInfo": 4, "Batch.Put": -1, "Batch.Write": -1}, "one batch per truncation including meta", "a truncation is atomic")
 		c.Gate(tr, "Batch.Write", q.ToFieldStore("Ledger.meta"), q.Opt{})
 		c.Gate(tr, "Batch.Write", q.ToSuccess(), q.Opt{})
